@@ -108,6 +108,15 @@ func (r Response) MarshalBinary() ([]byte, error) {
 		head.TransferEncoding = []string{"chunked"}
 	}
 	respBytes, err := httputil.DumpResponse(&head, true)
+	if err == nil && len(r.Data.Trailer) != len(head.Trailer) {
+		// Trailer fields that were not announced appear on the response only while its body is
+		// read, i.e. after the head was copied: write the message again with them.
+		head.Trailer = r.Data.Trailer
+		if len(head.TransferEncoding) == 0 {
+			head.TransferEncoding = []string{"chunked"}
+		}
+		respBytes, err = httputil.DumpResponse(&head, true)
+	}
 	// DumpResponse replaced the body by a copy that can be read again: hand it to the response.
 	r.Data.Body = head.Body
 	if err != nil {
